@@ -314,70 +314,13 @@ Definition go_parse_float (s : bytes) : gpf :=
   end.
 
 (* ------------------------------------------------------------------ *)
-(* strings.TrimSpace                                                   *)
+(* value.go trimASCIISpace                                             *)
 (* ------------------------------------------------------------------ *)
 
-(* unicode.IsSpace *)
-Definition is_unicode_space (r : Z) : bool :=
-  (r =? 9) || (r =? 10) || (r =? 11) || (r =? 12) || (r =? 13) || (r =? 32) || (r =? 133) || (r =? 160)
-  || (r =? 5760) || ((8192 <=? r) && (r <=? 8202)) || (r =? 8232) || (r =? 8233) || (r =? 8239)
-  || (r =? 8287) || (r =? 12288).
-
-Fixpoint trim_left_fuel (fuel : nat) (s : bytes) : bytes :=
-  match fuel with
-  | O => s
-  | S f =>
-      match s with
-      | [] => []
-      | _ => let '(r, w) := decode_rune s in
-             if is_unicode_space r then trim_left_fuel f (zdrop w s) else s
-      end
-  end.
-
-(* utf8.RuneStart *)
-Definition rune_start (b : Z) : bool := negb ((128 <=? b) && (b <=? 191)).
-
-(* utf8.DecodeLastRuneInString on the REVERSED string (last byte first) *)
-Definition decode_last_rune (r : bytes) : Z * Z :=
-  let try (cand : bytes) (n : Z) :=
-    let '(ru, w) := decode_rune cand in if w =? n then (ru, n) else (rune_error, 1) in
-  match r with
-  | [] => (rune_error, 0)
-  | b0 :: t0 =>
-      if b0 <? 128 then (b0, 1)
-      else
-        match t0 with
-        | [] => (rune_error, 1)
-        | b1 :: t1 =>
-            if rune_start b1 then try [b1; b0] 2
-            else
-              match t1 with
-              | [] => (rune_error, 1)
-              | b2 :: t2 =>
-                  if rune_start b2 then try [b2; b1; b0] 3
-                  else
-                    match t2 with
-                    | [] => (rune_error, 1)
-                    | b3 :: _ => if rune_start b3 then try [b3; b2; b1; b0] 4 else (rune_error, 1)
-                    end
-              end
-        end
-  end.
-
-Fixpoint trim_right_rev_fuel (fuel : nat) (r : bytes) : bytes :=
-  match fuel with
-  | O => r
-  | S f =>
-      match r with
-      | [] => []
-      | _ => let '(ru, w) := decode_last_rune r in
-             if is_unicode_space ru then trim_right_rev_fuel f (zdrop w r) else r
-      end
-  end.
-
-Definition trim_space (s : bytes) : bytes :=
-  let t := trim_left_fuel (length s) s in
-  rev (trim_right_rev_fuel (length t) (rev t)).
+(* the leading blanks of the asciiSpace table are dropped, then the trailing ones of what is
+   left (the second loop of the Go code cannot move below [start]) *)
+Definition ascii_trim (s : bytes) : bytes :=
+  rev (snd (span ascii_space (rev (snd (span ascii_space s))))).
 
 (* ------------------------------------------------------------------ *)
 (* value.go parseFloat                                                 *)
@@ -386,14 +329,13 @@ Definition trim_space (s : bytes) : bytes :=
 Inductive pfres : Type :=
 | PFOk (v : fnum)            (* err == nil *)
 | PFErrSyntax                (* *NumError{ErrSyntax} from strconv *)
-| PFErrUnderscore            (* goawk's own strconv.ErrSyntax *)
-| PFErrRange (v : fnum).     (* *NumError{ErrRange}; v = +-Inf *)
+| PFErrUnderscore.           (* goawk's own strconv.ErrSyntax *)
 
 Definition str_p0 : bytes := [112; 48].
 
 (* the text parseFloat hands to strconv.ParseFloat, or None on the "+nan"/"-nan" shortcut *)
 Definition parse_float_text (s : bytes) : option bytes :=
-  let s := trim_space s in
+  let s := ascii_trim s in
   let nop := negb (contains 112 s) && negb (contains 80 s) in
   match s with
   | c :: t =>
@@ -412,8 +354,8 @@ Definition parse_float (s : bytes) : pfres :=
   | Some s' =>
       match go_parse_float s' with
       | GSyntax => PFErrSyntax
-      | GVal v true => PFErrRange v
-      | GVal v false => if contains 95 s' then PFErrUnderscore else PFOk v
+      | GVal v _ =>                 (* ErrRange is accepted: v is +-Inf *)
+          if contains 95 s' then PFErrUnderscore else PFOk v
       end
   end.
 
